@@ -9,7 +9,7 @@ import execpipe as X
 PROP = "C20"
 RULE = ("valid programs with nested blocks (if arm, for body, scan arm, depth 0-3, several stanzas) into which exactly one runtime fault "
         "(type error, unknown function, conflicting attribute, duplicate scoped variable, undefined edge) is injected at every "
-        "statement position, x trees with many matches x {strict, lazy}; the real error's context chain (read through the guarded "
+        "statement position, x trees with many matches x {strict, lazy}; incl. stanzas whose matches have different node kinds (alternation, wildcard, supertype) with the fault reached only for one kind; the real error's context chain (read through the guarded "
         "re-export of Context/StatementContext) must name the stanza, the matched node and a statement the TLA+ machine admits "
         "(strict: the failing statement; lazy: it or an enclosing one; conflicts: both statements); the pretty rendering must show "
         "the cited lines; non-trivial = the injected fault was reached")
@@ -85,6 +85,28 @@ def make_cases(tier):
                 c["path"] = path
                 cases.append(c)
             k += 1
+    # stanzas whose matches are nodes of different kinds; the fault is reached only in matches of one kind (usually not the first match)
+    # (query, capture, kinds to fail on, sources in which that kind occurs and is not the kind of the stanza's first match)
+    multi = [("[(expression_statement) (return_statement) (if_statement) (function_definition)] @s ", "s", ["return_statement", "expression_statement"], [2]),
+             ("[(expression_statement) (return_statement) (if_statement) (function_definition)] @s ", "s", ["expression_statement"], [5]),
+             ("(expression) @s ", "s", ["integer", "identifier", "call", "binary_operator"], [2]),
+             ("(expression) @s ", "s", ["integer"], [5, 10, 11]),
+             ("(_) @s ", "s", ["identifier", "integer", "block", "expression_statement"], [2, 5]),
+             ("(_) @s ", "s", ["identifier"], [3, 6, 7, 8]),
+             ("(module (_) @s) ", "s", ["expression_statement"], [2])]
+    mcombos = [(f, p, q, kind) for f in ("type", "unknown-fn", "conflict", "undef-edge") for p in ([], ["if"], ["for", "scan"]) for q in multi for kind in q[2]]
+    if tier == "quick":
+        r.shuffle(mcombos)
+        mcombos = mcombos[:40]
+    for fault, path, (qtext, cap, _, srcs), kind in mcombos:
+        guarded = [A.iff(([A.cond("bool", A.call("eq", A.call("node-type", A.cap(cap)), A.string(kind)))], fault_stmts(fault, cap)))]
+        prog = A.file([A.stanza(qtext, skeleton(r, cap, path, guarded))])
+        src = r.choice(srcs)
+        for c in A.both_modes("c20k-%d" % k, prog, src):
+            c["fault"] = fault + "@" + kind
+            c["path"] = path + ["kind"]
+            cases.append(c)
+        k += 1
     # whole-file faults: the SAME statement conflicting with itself on different matches, conflicts across stanzas
     for fk in FILE_FAULTS:
         for rep in range(2 if tier == "quick" else 8):
